@@ -54,6 +54,13 @@ def Terminal.isShortCircuit : Terminal → Bool
   | .find _ | .any _ | .all _ | .findIdx _ | .first | .firstIdx => true
   | _ => false
 
+/-- what a worker of a short-circuit terminal evaluates per source element: the element's stream,
+    through the predicate if the terminal has one; it stops at the first output -/
+def Par.scanFn (P : Par) (t : Terminal) : Val → Prod :=
+  match t.pred? with
+  | some q => P.elemQ q
+  | none => P.elem
+
 /-- all closure invocations of the terminal phase under execution `ex` -/
 def Par.termLog (P : Par) (ex : Exec) (t : Terminal) : List Event :=
   match t.pred?, t.isShortCircuit with
